@@ -381,7 +381,7 @@ int main(int argc, char** argv)
             return m;
         };
         auto A = load(fa), B = load(fb);
-        if (A.size() != B.size() || A.empty()) { printf("HARNESS-ERROR twins explored different history sets (%zu vs %zu)\n", A.size(), B.size()); return 2; }
+        if (A.size() != B.size() || A.empty()) { printf("HARNESS-ERROR twins explored different history sets (%zu vs %zu) %s\n", A.size(), B.size(), dir.c_str()); if (!getenv("VERIF_C13_KEEP")) { std::error_code ec; std::filesystem::remove_all(dir, ec); } return 2; }
         for (auto& [h, a] : A) {
             auto it = B.find(h);
             if (it == B.end()) { printf("HARNESS-ERROR history %s missing in the reference twin\n", h.c_str()); return 2; }
@@ -404,7 +404,8 @@ int main(int argc, char** argv)
             }
         }
     }
-    { std::error_code ec; std::filesystem::remove_all(dir, ec); }
+    if (!getenv("VERIF_C13_KEEP")) { std::error_code ec; std::filesystem::remove_all(dir, ec); } else fprintf(stderr, "kept %s\n", dir.c_str());
+    fprintf(stderr, "[C13] twins done t=%.1fs\n", vx::elapsed());
     uint64_t cstates = 0, ctrans = 0, cevict = 0, cerased = 0;
     cuckoo_part(big, cstates, ctrans, cevict, cerased);
     // vacuity gates
